@@ -122,3 +122,64 @@ fn u07_root_map_announces_its_length() {
     assert!(n == 0);
     assert!(hint.is_none() || hint == Some(0));
 }
+
+// ---- scalars are exported as themselves (C32: "a faithful image ... scalars").  A second recording serializer
+// remembers WHICH primitive the value was serialized as and with what payload.  Complete (loop-free) over all
+// Int / Uint / Timestamp / Counter / Boolean / Null values.
+#[derive(PartialEq)]
+enum Seen { I64(i64), U64(u64), Bool(bool), Unit, Other }
+struct RecScalar;
+impl serde::Serializer for RecScalar {
+    type Ok = Seen; type Error = E;
+    type SerializeSeq = Impossible<Seen, E>; type SerializeTuple = Impossible<Seen, E>; type SerializeTupleStruct = Impossible<Seen, E>;
+    type SerializeTupleVariant = Impossible<Seen, E>; type SerializeMap = Impossible<Seen, E>; type SerializeStruct = Impossible<Seen, E>; type SerializeStructVariant = Impossible<Seen, E>;
+    fn serialize_bool(self, v: bool) -> Result<Seen, E> { Ok(Seen::Bool(v)) }
+    fn serialize_i8(self, v: i8) -> Result<Seen, E> { Ok(Seen::I64(v as i64)) }
+    fn serialize_i16(self, v: i16) -> Result<Seen, E> { Ok(Seen::I64(v as i64)) }
+    fn serialize_i32(self, v: i32) -> Result<Seen, E> { Ok(Seen::I64(v as i64)) }
+    fn serialize_i64(self, v: i64) -> Result<Seen, E> { Ok(Seen::I64(v)) }
+    fn serialize_u8(self, v: u8) -> Result<Seen, E> { Ok(Seen::U64(v as u64)) }
+    fn serialize_u16(self, v: u16) -> Result<Seen, E> { Ok(Seen::U64(v as u64)) }
+    fn serialize_u32(self, v: u32) -> Result<Seen, E> { Ok(Seen::U64(v as u64)) }
+    fn serialize_u64(self, v: u64) -> Result<Seen, E> { Ok(Seen::U64(v)) }
+    fn serialize_f32(self, _: f32) -> Result<Seen, E> { Ok(Seen::Other) }
+    fn serialize_f64(self, _: f64) -> Result<Seen, E> { Ok(Seen::Other) }
+    fn serialize_char(self, _: char) -> Result<Seen, E> { Ok(Seen::Other) }
+    fn serialize_str(self, _: &str) -> Result<Seen, E> { Ok(Seen::Other) }
+    fn serialize_bytes(self, _: &[u8]) -> Result<Seen, E> { Ok(Seen::Other) }
+    fn serialize_none(self) -> Result<Seen, E> { Ok(Seen::Unit) }
+    fn serialize_some<T: ?Sized + serde::Serialize>(self, _: &T) -> Result<Seen, E> { Ok(Seen::Other) }
+    fn serialize_unit(self) -> Result<Seen, E> { Ok(Seen::Unit) }
+    fn serialize_unit_struct(self, _: &'static str) -> Result<Seen, E> { Ok(Seen::Unit) }
+    fn serialize_unit_variant(self, _: &'static str, _: u32, _: &'static str) -> Result<Seen, E> { Ok(Seen::Unit) }
+    fn serialize_newtype_struct<T: ?Sized + serde::Serialize>(self, _: &'static str, _: &T) -> Result<Seen, E> { Ok(Seen::Other) }
+    fn serialize_newtype_variant<T: ?Sized + serde::Serialize>(self, _: &'static str, _: u32, _: &'static str, _: &T) -> Result<Seen, E> { Ok(Seen::Other) }
+    fn serialize_seq(self, _: Option<usize>) -> Result<Self::SerializeSeq, E> { Err(E) }
+    fn serialize_tuple(self, _: usize) -> Result<Self::SerializeTuple, E> { Err(E) }
+    fn serialize_tuple_struct(self, _: &'static str, _: usize) -> Result<Self::SerializeTupleStruct, E> { Err(E) }
+    fn serialize_tuple_variant(self, _: &'static str, _: u32, _: &'static str, _: usize) -> Result<Self::SerializeTupleVariant, E> { Err(E) }
+    fn serialize_map(self, _: Option<usize>) -> Result<Self::SerializeMap, E> { Err(E) }
+    fn serialize_struct(self, _: &'static str, _: usize) -> Result<Self::SerializeStruct, E> { Err(E) }
+    fn serialize_struct_variant(self, _: &'static str, _: u32, _: &'static str, _: usize) -> Result<Self::SerializeStructVariant, E> { Err(E) }
+}
+
+#[kani::proof]
+#[kani::unwind(4)]
+fn u07_scalar_faithful() {
+    let doc = Mock { root_len: 0, other_len: 0 };
+    let k: u8 = kani::any();
+    let i: i64 = kani::any();
+    let u: u64 = kani::any();
+    let b: bool = kani::any();
+    let (sv, want) = match k % 6 {
+        0 => (crate::ScalarValue::Int(i), Seen::I64(i)),
+        1 => (crate::ScalarValue::Uint(u), Seen::U64(u)),
+        2 => (crate::ScalarValue::Timestamp(i), Seen::I64(i)),
+        3 => (crate::ScalarValue::Counter(i.into()), Seen::I64(i)),
+        4 => (crate::ScalarValue::Boolean(b), Seen::Bool(b)),
+        _ => (crate::ScalarValue::Null, Seen::Unit),
+    };
+    let v = AutoSerdeVal { doc: &doc, val: Value::Scalar(std::borrow::Cow::Owned(sv)), obj: ExId::Root };
+    let got = serde::Serialize::serialize(&v, RecScalar).unwrap();
+    assert!(got == want);
+}
